@@ -518,7 +518,7 @@ func (lm *lexSSAModel) tokenPaths(fn *ssa.Function, b byte, inside bool) []*lexT
 		}
 		return nil, false
 	}
-	pw := &pathWalker{loadHook: hook, inline: lm.inlinePolicy(fn), unroll1: true, maxPaths: 5000, stopCall: lm.redispatchStop(fn)}
+	pw := &pathWalker{loadHook: hook, inline: lm.inlinePolicy(fn), unroll1: true, maxPaths: 5000, stopCall: lm.redispatchStop(fn), equate: true}
 	pw.walk(fn)
 	var out []*lexTokPath
 	for _, p := range pw.paths {
